@@ -77,7 +77,7 @@ pub fn run(ctx: &Ctx, replay: Option<&J>) -> CheckResult {
         lists permuted, duplicated, filled to capacity; strings of all Unicode classes around the capacities; signal descriptors changed); (2) systematic single-leaf \
         sweep: every numeric leaf of two bases per type set to each of 15 extreme values / type MIN / type MAX; (3) hostile typed constructors: MSM with satellite \
         0/65/255, unknown signal, duplicate satellite/cell, mismatching rows, >64 mask cells; 1059/1065 with 64 satellites and >31 entries per satellite; \
-        Empty/Corrupt/MsgNotSupported. oracle (catch_unwind): Err or a frame of 8..=1029 bytes, 0xD3, zero reserved bits, length field == payload size, first 12 payload \
+        Empty/Corrupt/MsgNotSupported; (4) 1007/1008/1033/1029 constructed through the typed API (From<&str>) from over-long, multi-byte and token text. oracle (catch_unwind): Err or a frame of 8..=1029 bytes, 0xD3, zero reserved bits, length field == payload size, first 12 payload \
         bits == the variant's number, checksum == independent CRC-24Q; wire-less variants refused; every recipe is also built on a builder that was used once before (refused early / refused late / long frame) with the same frame oracle. both build profiles. non-trivial = >=1 out-of-domain op or full list; \
         distinct = hash of the value tree"
         .to_string();
@@ -89,7 +89,24 @@ pub fn run(ctx: &Ctx, replay: Option<&J>) -> CheckResult {
         let mut ev = Evidence::new();
         ev.eval();
         let mut vs = Vec::new();
-        if let Some(tree) = c.get("value").and_then(Value::from_json) {
+        if c["kind"] == "typed-string" {
+            let shard = c["shard"].as_u64().unwrap_or(0);
+            let index = c["index"].as_u64().unwrap_or(0);
+            let mut rng = ctx.rng("c09-typed-strings", shard);
+            let mut res: Result<(), (String, String)> = Ok(());
+            for i in 0..=index {
+                let built = catch(|| msggen::typed_string_message(&mut rng, i));
+                if i == index {
+                    res = match built {
+                        Ok(m) => oracle(&m).map(|_| ()),
+                        Err(p) => Err((panic_signature(&p), format!("constructing a string-bearing message through From<&str> panicked: {}", p))),
+                    };
+                }
+            }
+            if let Err((sig, msg)) = res {
+                vs.push(Violation { property: "C09".into(), signature: sig, message: msg, case: c.clone() });
+            }
+        } else if let Some(tree) = c.get("value").and_then(Value::from_json) {
             let before = c.get("builder_used_before_for").and_then(Value::from_json).and_then(|t| value_to_message(&t).ok());
             match value_to_message(&tree) {
                 Ok(m) => {
@@ -249,6 +266,48 @@ pub fn run(ctx: &Ctx, replay: Option<&J>) -> CheckResult {
                         }
                     }
                 }
+            }
+        }
+    }
+    // typed construction of the string-bearing messages (From<&str>): over-long and multi-byte sources
+    {
+        let n = ctx.n(40_000, 1_000_000);
+        let (tev, tvs) = par_shards(16, |shard| {
+            let mut ev = Evidence::new();
+            let mut vs: Vec<Violation> = Vec::new();
+            let mut rng = ctx.rng("c09-typed-strings", shard as u64);
+            for i in 0..n / 16 {
+                let built = catch(|| msggen::typed_string_message(&mut rng, i));
+                ev.evaluations += 1;
+                let m = match built {
+                    Ok(m) => m,
+                    Err(p) => {
+                        if vs.is_empty() {
+                            vs.push(Violation { property: "C09".into(), signature: panic_signature(&p), message: format!("constructing a string-bearing message through From<&str> panicked: {}", p), case: json!({"kind":"typed-string","shard":shard,"index":i}) });
+                        }
+                        continue;
+                    }
+                };
+                match oracle(&m) {
+                    Ok(_) => {
+                        ev.nontrivial_hash(hash_str(&format!("{:?}", registry::variant_name(&m))) ^ (shard as u64) << 32 ^ i);
+                        if i % 16 == 0 {
+                            ev.class("typed-string-message");
+                        }
+                    }
+                    Err((sig, msg)) => {
+                        if !vs.iter().any(|v| v.signature == sig) {
+                            vs.push(Violation { property: "C09".into(), signature: sig, message: msg, case: json!({"kind":"typed-string","shard":shard,"index":i}) });
+                        }
+                    }
+                }
+            }
+            (ev, vs)
+        });
+        ev.merge(tev);
+        for v in tvs {
+            if !vs.iter().any(|x| x.signature == v.signature) {
+                vs.push(v);
             }
         }
     }
